@@ -4,6 +4,7 @@ import (
 	"encoding/json"
 	"errors"
 	"fmt"
+	"sync"
 	"time"
 
 	"github.com/yandex/mysync/internal/dcs"
@@ -25,7 +26,12 @@ type recDCS struct {
 	noRec bool
 	// gate, when set, is consulted before every data call; returning an error fails the call
 	// without reaching the server (used to inject coordination failures at call boundaries).
-	gate func(method, path string) error
+	// flight is read-locked for the duration of every inner call and write-locked by the harness
+	// while it cuts, resets or expires this instance's ZooKeeper connection, so that no call can
+	// pass the "established" check and then sit in the client's queue across the fault.
+	flight *sync.RWMutex
+	gate   func(method, path string) error
+	after  func(method, path, arg, res string)
 }
 
 func (d *recDCS) cut() bool { return !d.zk.Established(d.name) }
@@ -67,9 +73,15 @@ func (d *recDCS) rec(method, path, arg, res string, err error) {
 		e.Res = errStr(err)
 	}
 	d.w.Log(e)
+	if d.after != nil {
+		d.after(method, path, arg, e.Res)
+	}
 }
 
+// pre read-locks the flight lock and decides whether the call may reach the server; the caller
+// must call d.post() afterwards in every case.
 func (d *recDCS) pre(method, path string) error {
+	d.flight.RLock()
 	if d.cut() {
 		return errCut
 	}
@@ -79,6 +91,8 @@ func (d *recDCS) pre(method, path string) error {
 	return nil
 }
 
+func (d *recDCS) post() { d.flight.RUnlock() }
+
 func (d *recDCS) IsConnected() bool { return d.inner.IsConnected() }
 func (d *recDCS) WaitConnected(t time.Duration) bool {
 	return d.inner.WaitConnected(t)
@@ -87,15 +101,18 @@ func (d *recDCS) Initialize() {
 	if d.pre("Initialize", "") == nil {
 		d.inner.Initialize()
 	}
+	d.post()
 }
 func (d *recDCS) SetDisconnectCallback(f func() error) { d.inner.SetDisconnectCallback(f) }
 
 func (d *recDCS) AcquireLock(p string) bool {
 	if err := d.pre("AcquireLock", p); err != nil {
+		d.post()
 		d.rec("AcquireLock", p, "", "false", nil)
 		return false
 	}
 	ok := d.inner.AcquireLock(p)
+	d.post()
 	d.rec("AcquireLock", p, "", fmt.Sprint(ok), nil)
 	return ok
 }
@@ -104,6 +121,7 @@ func (d *recDCS) ReleaseLock(p string) {
 	if d.pre("ReleaseLock", p) == nil {
 		d.inner.ReleaseLock(p)
 	}
+	d.post()
 	d.rec("ReleaseLock", p, "", "", nil)
 }
 
@@ -112,6 +130,7 @@ func (d *recDCS) Create(p string, v any) error {
 	if err == nil {
 		err = d.inner.Create(p, v)
 	}
+	d.post()
 	d.rec("Create", p, short(v), "", err)
 	return err
 }
@@ -121,6 +140,7 @@ func (d *recDCS) CreateEphemeral(p string, v any) error {
 	if err == nil {
 		err = d.inner.CreateEphemeral(p, v)
 	}
+	d.post()
 	d.rec("CreateEphemeral", p, short(v), "", err)
 	return err
 }
@@ -130,6 +150,7 @@ func (d *recDCS) Set(p string, v any) error {
 	if err == nil {
 		err = d.inner.Set(p, v)
 	}
+	d.post()
 	d.rec("Set", p, short(v), "", err)
 	return err
 }
@@ -139,6 +160,7 @@ func (d *recDCS) SetEphemeral(p string, v any) error {
 	if err == nil {
 		err = d.inner.SetEphemeral(p, v)
 	}
+	d.post()
 	if len(p) > 7 && p[:7] == "health/" {
 		// health records are written every few seconds by every instance; keep the log small
 		d.rec("SetEphemeral", p, "", "", err)
@@ -153,6 +175,7 @@ func (d *recDCS) Get(p string, dest any) error {
 	if err == nil {
 		err = d.inner.Get(p, dest)
 	}
+	d.post()
 	if err == nil {
 		d.rec("Get", p, "", short(dest), nil)
 	} else {
@@ -166,14 +189,17 @@ func (d *recDCS) Delete(p string) error {
 	if err == nil {
 		err = d.inner.Delete(p)
 	}
+	d.post()
 	d.rec("Delete", p, "", "", err)
 	return err
 }
 
 func (d *recDCS) GetTree(p string) (any, error) {
 	if err := d.pre("GetTree", p); err != nil {
+		d.post()
 		return nil, err
 	}
+	defer d.post()
 	return d.inner.GetTree(p)
 }
 
@@ -183,6 +209,7 @@ func (d *recDCS) GetChildren(p string) ([]string, error) {
 	if err == nil {
 		ch, err = d.inner.GetChildren(p)
 	}
+	d.post()
 	if err == nil {
 		d.rec("GetChildren", p, "", short(ch), nil)
 	} else {
